@@ -8,6 +8,7 @@ import (
 	"context"
 	"fmt"
 	"math/big"
+	"math/rand"
 	"strings"
 
 	"github.com/cockroachdb/apd/v3"
@@ -332,7 +333,7 @@ func gen(r *lib.RNG) caseT {
 	var c caseT
 	var tgt *intType
 	kind := "num"
-	switch r.Intn(16) {
+	switch r.Intn(20) {
 	case 0, 1:
 		c.Type = lib.Pick(r, []string{"varchar", "varbinary"})
 		kind = "str"
@@ -358,6 +359,50 @@ func gen(r *lib.RNG) caseT {
 			if cv.Y >= 1971 && cv.Y <= 2037 || tk != "timestamp" && cv.Y >= 1000 && cv.Y <= 9998 {
 				c.V[1] = valSpec{Src: lib.Pick(r, []string{"time", "text"}), Text: c.V[0].Text}
 			}
+		}
+		return c
+	case 10, 11: // ENUM (by index), SET (by mask), BIT (by value)
+		k := lib.Pick(r, []string{"enum", "set", "bit"})
+		n := r.Range(1, 10)
+		if k == "bit" {
+			n = lib.Pick(r, []int{1, 8, 16, 63, 64})
+		}
+		c.Type = fmt.Sprintf("%s(%d)", k, n)
+		lim := new(big.Int).Lsh(big.NewInt(1), uint(n))
+		if k == "enum" {
+			lim = big.NewInt(int64(n) + 3) // a few invalid indexes: they sort first
+		}
+		for i := range c.V {
+			z := new(big.Int).Rand(rand.New(rngSource{r}), lim)
+			if r.Chance(1, 3) {
+				z = new(big.Int).Sub(lim, big.NewInt(int64(1+r.Intn(2))))
+				if k == "enum" && r.Bool() {
+					z = big.NewInt(int64(r.Intn(3) - 1)) // -1 (invalid), 0, 1
+				}
+			}
+			src := "uint64"
+			if z.Sign() < 0 || (z.Cmp(bi("9223372036854775807")) <= 0 && r.Bool()) {
+				src = "int64"
+			}
+			c.V[i] = valSpec{Src: src, Text: z.String()}
+			if r.Chance(1, 10) {
+				c.V[i] = valSpec{Src: "null"}
+			}
+		}
+		if r.Chance(1, 4) {
+			c.V[r.Intn(3)] = c.V[r.Intn(3)]
+		}
+		return c
+	case 12: // JSON documents (implementation-side laws only; the model and its theorems are C32's)
+		c.Type = "json"
+		for i := range c.V {
+			c.V[i] = valSpec{Src: "json", Text: genJSON(r, 2)}
+			if r.Chance(1, 10) {
+				c.V[i] = valSpec{Src: "null"}
+			}
+		}
+		if r.Chance(1, 4) {
+			c.V[r.Intn(3)] = c.V[r.Intn(3)]
 		}
 		return c
 	case 9: // DOUBLE on integers beyond 2^53 (implementation-side laws only)
@@ -407,6 +452,48 @@ func gen(r *lib.RNG) caseT {
 	return c
 }
 
+type rngSource struct{ r *lib.RNG }
+
+func (s rngSource) Int63() int64   { return s.r.Int63() }
+func (s rngSource) Seed(int64)     {}
+func (s rngSource) Uint64() uint64 { return s.r.Uint64() }
+
+func genJSON(r *lib.RNG, depth int) string {
+	switch k := r.Intn(8); {
+	case k == 0:
+		return "null"
+	case k == 1:
+		return lib.Pick(r, []string{"true", "false"})
+	case k == 2 || k == 3:
+		return fmt.Sprint(r.Intn(21) - 10)
+	case k == 4 || depth == 0:
+		return `"` + lib.Pick(r, []string{"", "a", "b", "ab", "B", "10", "9"}) + `"`
+	case k == 5:
+		n := r.Intn(3)
+		parts := make([]string, n)
+		for i := range parts {
+			parts[i] = genJSON(r, depth-1)
+		}
+		return "[" + strings.Join(parts, ",") + "]"
+	default:
+		n := r.Intn(3)
+		keys := []string{"a", "b", "c", "aa"}
+		var parts []string
+		used := map[string]bool{}
+		for i := 0; i < n; i++ {
+			k := lib.Pick(r, keys)
+			if used[k] {
+				continue
+			}
+			used[k] = true
+			parts = append(parts, fmt.Sprintf("%q:%s", k, genJSON(r, depth-1)))
+		}
+		return "{" + strings.Join(parts, ",") + "}"
+	}
+}
+
+var memberNames = []string{"a", "b", "c", "d", "e", "f", "g", "h", "i", "j", "k", "l"}
+
 func parseType(t string) (typ sql.Type, coq string, kind string) {
 	if it := intTypeByName(t); it != nil {
 		return it.T, "(CInt " + it.Coq + ")", "int"
@@ -425,6 +512,17 @@ func parseType(t string) (typ sql.Type, coq string, kind string) {
 		return types.MustCreateBinary(sqltypes.VarBinary, 40), "CBin", "str"
 	case t == "f64":
 		return types.Float64, "", "flt"
+	case t == "json":
+		return types.JSON, "", "json"
+	case strings.HasPrefix(t, "enum("):
+		fmt.Sscanf(t, "enum(%d)", &p)
+		return types.MustCreateEnumType(memberNames[:p], sql.Collation_utf8mb4_bin), fmt.Sprintf("(CEnum %d%%Z)", p), "enum"
+	case strings.HasPrefix(t, "set("):
+		fmt.Sscanf(t, "set(%d)", &p)
+		return types.MustCreateSetType(memberNames[:p], sql.Collation_utf8mb4_bin), fmt.Sprintf("(CSet %d%%Z)", p), "set"
+	case strings.HasPrefix(t, "bit("):
+		fmt.Sscanf(t, "bit(%d)", &p)
+		return types.MustCreateBitType(uint8(p)), fmt.Sprintf("(CBit %d%%Z)", p), "bit"
 	case t == "date":
 		return types.Date, "CDate", "date"
 	case t == "year":
@@ -451,6 +549,8 @@ func goVal(v valSpec) interface{} {
 			panic(err)
 		}
 		return d
+	case "json":
+		return types.MustJSON(v.Text)
 	case "string", "text", "yearstr":
 		return v.Text
 	case "time":
@@ -508,14 +608,23 @@ func run(c *lib.Ctx, cs caseT) {
 	desc := fmt.Sprintf("%s.Compare on a=%s:%q b=%s:%q c=%s:%q", cs.Type, cs.V[0].Src, cs.V[0].Text, cs.V[1].Src, cs.V[1].Text, cs.V[2].Src, cs.V[2].Text)
 	key := cs.Type + "|" + fmt.Sprint(cs.V)
 	var id int
-	if kind == "flt" || pn || cmpErr != nil {
+	if kind == "flt" || kind == "json" || pn || cmpErr != nil {
 		id = c.CaseNoModel(cs, key)
 	} else {
 		zs := make([]string, 9)
 		for i, r := range res {
 			zs[i] = lib.CoqZ(int64(r))
 		}
-		id = c.Case(lib.CoqTuple(tcoq, coqVal(cs.V[0]), coqVal(cs.V[1]), coqVal(cs.V[2]), lib.CoqList(zs)), cs, key)
+		cv := coqVal
+		if kind == "enum" || kind == "set" || kind == "bit" {
+			cv = func(v valSpec) string {
+				if v.Src == "null" {
+					return "CNull"
+				}
+				return "(CX (TNum " + observe(goVal(v)).coq() + "))"
+			}
+		}
+		id = c.Case(lib.CoqTuple(tcoq, cv(cs.V[0]), cv(cs.V[1]), cv(cs.V[2]), lib.CoqList(zs)), cs, key)
 	}
 	c.PredChecked()
 	fail := func(sig, what string) {
@@ -680,7 +789,7 @@ func run(c *lib.Ctx, cs caseT) {
 
 func main() {
 	lib.Main("C26", func(c *lib.Ctx) {
-		c.Header = "From Coq Require Import List NArith ZArith.\nImport ListNotations.\nFrom GMS Require Import Codec.C25Arith Codec.C27Convert Codec.C26Compare Corr.C26.\nOpen Scope N_scope."
+		c.Header = "From Coq Require Import List NArith ZArith.\nImport ListNotations.\nFrom GMS Require Import Codec.C25Arith Codec.C27Convert Codec.C27Enum Codec.C26Compare Corr.C26.\nOpen Scope N_scope."
 		c.CaseType = "C26.case"
 		c.MismatchFn = "C26.mismatches"
 		c.SetRule("value triples per type: the ten integer types (values: Go integers of every carrier at type limits, +-2^k+-2, " +
@@ -719,6 +828,13 @@ func main() {
 			{"datetime(0)", [3]valSpec{v("time", "2023-01-15 10:00:00.400000"), v("time", "2023-01-15 10:00:00.300000"), v("text", "2023-01-15 10:00:00.500000")}},
 			{"year", [3]valSpec{v("yearint", "69"), v("yearstr", "70"), v("yearstr", "0")}},
 			{"time", [3]valSpec{v("span", "-1"), v("span", "3020399000000"), v("span", "0")}},
+			{"enum(3)", [3]valSpec{v("int64", "3"), v("int64", "1"), v("int64", "5")}},
+			{"enum(3)", [3]valSpec{v("int64", "-1"), v("int64", "0"), v("uint64", "2")}},
+			{"set(3)", [3]valSpec{v("int64", "7"), v("uint64", "1"), v("int64", "0")}},
+			{"bit(8)", [3]valSpec{v("int64", "255"), v("uint64", "0"), v("int64", "128")}},
+			{"bit(64)", [3]valSpec{v("uint64", "18446744073709551615"), v("int64", "1"), v("uint64", "9223372036854775808")}},
+			{"json", [3]valSpec{v("json", `{"a":1}`), v("json", `[1,2]`), v("json", `"a"`)}},
+			{"json", [3]valSpec{v("json", `{"b":1,"a":2}`), v("json", `{"a":2,"b":1}`), v("json", `null`)}},
 			{"varchar", [3]valSpec{v("string", "a"), v("string", "ab"), v("string", "B")}},
 			{"varbinary", [3]valSpec{v("string", "é"), v("string", "z"), null}},
 		}
